@@ -26,7 +26,7 @@ META = dict(
                'adsg_core.optimization.assign_enc.matrix.AggregateAssignmentMatrixGenerator.validate_matrix'],
     bounds=dict(connectors='<= 3x3', degree_values='<= 3 in lists, minima <= 2', matrix_entries='any non-negative integer (unbounded)',
                 path_cap=20000, query_timeout_s=20),
-    outside=['negative matrix entries', 'max_src_conn_override / max_tgt_conn_override', 'more than 3 connectors per side',
+    outside=['negative matrix entries', 'more than 3 connectors per side',
              'the enumerator and counter themselves run concretely: their output is compared with the specification by '
              'the solver (Q2), their code is not executed symbolically'],
     stubs=['numba kernels executed from .py_func (jitted versions cross-checked on one model per path)',
@@ -41,7 +41,7 @@ INSTANCE_CAP_S = 240
 
 def instances(tier, seed):
     out = []
-    for k, s in enumerate(pool.pool(tier, seed)):
+    for k, s in enumerate(pool.pool(tier, seed, with_max=True)):
         out.append(dict(label=f'{k:05d} {s.get("name") or ""} {pool.settings_label(s)}', s=s))
     return out
 
@@ -264,6 +264,34 @@ def run_instance(inst, tier='quick', seed=0):
                                  listed=len(listed_l), spec_limit=spec.limit,
                                  accepting_path_condition=str(z3.simplify(ex.paths[-1].cond()))[:400],
                                  queries=['V(M) != Spec(M): unsat', 'Spec(M) != (M in listed): unsat'])
+
+    # query order: on a cold cache, a filtered iteration for one pattern first, then the full listing on a new generator
+    if res['status'] == HOLDS and len(s['patterns']) > 1:
+        try:
+            k0 = (len(s['src'])+len(s['tgt'])) % len(s['patterns'])
+            g1 = AggregateAssignmentMatrixGenerator(pool.to_settings(s)[0])
+            g1.reset_agg_matrix_cache()
+            st1, ex1 = pool.to_settings(s)
+            g1 = AggregateAssignmentMatrixGenerator(st1)
+            got0 = sorted(np.array(m).tolist() for mats in [list(g1.iter_matrices(existence=ex1[k0]))] for m, _ in mats)
+            st2, ex2 = pool.to_settings(s)
+            g2 = AggregateAssignmentMatrixGenerator(st2)
+            agg2 = g2.get_agg_matrix(cache=False)
+            res['obligations'] += 2
+            want0 = sorted(m.tolist() for m in agg[exist[k0]])
+            if got0 != want0:
+                violation('iter_matrices_vs_listed', s['patterns'][k0], k0, None, dict(iter_matrices=len(got0)), dict(listed=len(want0)))
+            else:
+                res['discharged'] += 1
+            bad = [k_ for k_ in range(len(exist)) if sorted(m.tolist() for m in agg2[ex2[k_]]) != sorted(m.tolist() for m in agg[exist[k_]])]
+            if bad:
+                violation('listing_depends_on_query_order', s['patterns'][bad[0]], bad[0], None,
+                          dict(after_filtered_iteration=len(agg2[ex2[bad[0]]])), dict(listed=len(agg[exist[bad[0]]])), first_query=pool.pattern_label(s['patterns'][k0]))
+            else:
+                res['discharged'] += 1
+            g2.reset_agg_matrix_cache()
+        except Exception as e:  # noqa
+            violation('iter_matrices_raises', s['patterns'][0], 0, None, f'{type(e).__name__}: {e}', 'matrices')
 
     # API-level counts
     if n_sum_cold != sum(lens) and len(lens) == len(s['patterns']):
